@@ -972,7 +972,7 @@ Proof.
     unfold hs in E. rewrite !(render_key_reference JLeft) in E by (auto; discriminate).
     assert (ra = ra') by (eapply uniq_keys_same_row; eauto). subst ra'. f_equal.
     eapply Forall2_unique; eauto. intros u v [h rows] Hp Hu1 Hv1. simpl in *.
-    rewrite Forall_forall in Hw. eapply partners_unique; eauto. apply (Hw (h, rows)). exact Hp.
+    rewrite Forall_forall in Hw. exact (partners_unique ha ra h rows u v (Hw (h, rows) Hp) Hu1 Hv1).
 Qed.
 
 Definition wf_operand (o : operand) : Prop :=
@@ -997,15 +997,18 @@ Lemma inner_join_keys_unique a b res :
   first_is_reference (o_hdr a) [o_hdr b] -> wf_operand a -> wf_operand b ->
   d_join JInner None [a; b] = Ok res -> uniq_keys (d_rows res) = true.
 Proof.
-  intros Href [Hna [Hua Hla]] [Hnb [Hub Hlb]] H. rewrite (d_join_ok _ _ _ _ H). rewrite join_with_rows. simpl map. simpl combos.
+  intros Href [Hna [Hua Hla]] [Hnb [Hub Hlb]] H. rewrite (d_join_ok _ _ _ _ H). rewrite join_with_rows. cbn [map combos].
   apply uniq_keys_map_inj.
   - apply inner_combos_NoDup. repeat constructor; apply uniq_keys_NoDup; auto.
   - intros x y Hx Hy E. apply inner_combos_spec in Hx. apply inner_combos_spec in Hy.
     destruct Hx as [F1 A1]. destruct Hy as [F2 A2].
     inversion F1 as [|x1 ? l1 ? [ra [-> Hra]] F1']; subst. inversion F1' as [|x2 ? l2 ? [rb [-> Hrb]] F1'']; subst. inversion F1''; subst.
     inversion F2 as [|y1 ? m1 ? [ra' [-> Hra']] F2']; subst. inversion F2' as [|y2 ? m2 ? [rb' [-> Hrb']] F2'']; subst. inversion F2''; subst.
-    rewrite !(render_key_reference JInner) in E by (auto; discriminate).
-    assert (ra = ra') by (eapply uniq_keys_same_row; eauto). subst ra'. f_equal. f_equal. f_equal.
+    assert (length (h_ids (o_hdr a)) = length (fst ra)) as L1 by (apply Hla; exact Hra).
+    assert (length (h_ids (o_hdr a)) = length (fst ra')) as L2 by (apply Hla; exact Hra').
+    rewrite (render_key_reference JInner (o_hdr a) [o_hdr b] ra [Some rb] ltac:(discriminate) Href L1) in E.
+    rewrite (render_key_reference JInner (o_hdr a) [o_hdr b] ra' [Some rb'] ltac:(discriminate) Href L2) in E.
+    assert (ra = ra') by (apply (uniq_keys_same_row (o_rows a)); assumption). subst ra'. f_equal. f_equal. f_equal.
     simpl in A1, A2. rewrite andb_true_r in A1, A2.
     eapply (on_ok_unique (o_hdr a) [] [Some ra] (o_hdr b) (o_rows b)); eauto.
     unfold wf_other. simpl. repeat split; auto. destruct Href as [_ [Hi _]]. apply Hi. simpl; auto.
@@ -1030,4 +1033,87 @@ Proof.
       intros r H; simpl in H; repeat (destruct H as [<-|H]; [reflexivity|]); destruct H.
   - eexists. split; [vm_compute; reflexivity|]. vm_compute. repeat split; auto 10.
   - eexists. split; [vm_compute; reflexivity|]. vm_compute. repeat split; auto 10.
+Qed.
+
+(* =============================================================== result-level statement of the naming rule *)
+Lemma filter_partition_perm {A} (p : A -> bool) l : Permutation (filter p l ++ filter (fun x => negb (p x)) l) l.
+Proof.
+  induction l as [|a t IH]; simpl; [constructor|]. destruct (p a); simpl.
+  - constructor. exact IH.
+  - eapply perm_trans; [apply Permutation_sym; apply Permutation_middle|]. constructor. exact IH.
+Qed.
+
+Lemma join_names_NoDup k us ops res :
+  let hs := map o_hdr ops in
+  wf_headers (jcols k us hs) hs -> d_join k us ops = Ok res -> NoDup (d_ids res ++ d_ms res).
+Proof.
+  intros hs W H. rewrite (d_join_ok _ _ _ _ H). fold hs. unfold join_with. simpl. rewrite <- map_app.
+  eapply Permutation_NoDup; [apply Permutation_sym; apply Permutation_map; apply filter_partition_perm|].
+  apply cols_names_NoDup. exact W.
+Qed.
+
+(* =============================================================== concrete example (homonymous measures, aliases, body) *)
+Definition ex_L : operand :=
+  ("d1", mkD ["Id_1"; "Id_2"] ["Me_1"; "Me_2"]
+         [([VInt 1; VStr "A"], [VInt 10; VStr "x"]); ([VInt 1; VStr "B"], [VInt 11; VNull]);
+          ([VInt 2; VStr "A"], [VInt 12; VStr "z"]); ([VInt 3; VStr "A"], [VNull; VStr "w"])]).
+Definition ex_R : operand :=
+  ("d2", mkD ["Id_1"; "Id_2"] ["Me_1"; "Me_3"]
+         [([VInt 1; VStr "A"], [VInt 100; VInt 15]); ([VInt 2; VStr "A"], [VNull; VInt 25]);
+          ([VInt 2; VStr "B"], [VInt 102; VInt 35]); ([VInt 4; VStr "A"], [VInt 103; VNull])]).
+
+Lemma example_joins :
+  (* inner join: homonymous measures come out qualified by their alias *)
+  d_join JInner None [ex_L; ex_R] =
+    Ok (mkD ["Id_1"; "Id_2"] ["d1#Me_1"; "Me_2"; "d2#Me_1"; "Me_3"]
+            [([VInt 1; VStr "A"], [VInt 10; VStr "x"; VInt 100; VInt 15]);
+             ([VInt 2; VStr "A"], [VInt 12; VStr "z"; VNull; VInt 25])]) /\
+  (* left join with a body: the missing side is null; keep + final unqualification *)
+  d_join_stmt false JLeft None [ex_L; ex_R] [JKeep ["d1#Me_1"; "Me_3"]] =
+    Ok (mkD ["Id_1"; "Id_2"] ["Me_1"; "Me_3"]
+            [([VInt 1; VStr "A"], [VInt 10; VInt 15]); ([VInt 1; VStr "B"], [VInt 11; VNull]);
+             ([VInt 2; VStr "A"], [VInt 12; VInt 25]); ([VInt 3; VStr "A"], [VNull; VNull])]) /\
+  (* full join: both sides, keys coalesced *)
+  bind (d_join_stmt false JFull None [ex_L; ex_R] [JRename [("d1#Me_1", "A1"); ("d2#Me_1", "B1")]]) (fun d => Ok (d_ms d, d_rows d)) =
+    Ok (["A1"; "Me_2"; "B1"; "Me_3"],
+        [([VInt 1; VStr "A"], [VInt 10; VStr "x"; VInt 100; VInt 15]); ([VInt 1; VStr "B"], [VInt 11; VNull; VNull; VNull]);
+         ([VInt 2; VStr "A"], [VInt 12; VStr "z"; VNull; VInt 25]); ([VInt 3; VStr "A"], [VNull; VStr "w"; VNull; VNull]);
+         ([VInt 2; VStr "B"], [VNull; VNull; VInt 102; VInt 35]); ([VInt 4; VStr "A"], [VNull; VNull; VInt 103; VNull])]) /\
+  (* unresolved homonyms at the end of the join expression are an error *)
+  d_join_stmt false JInner None [ex_L; ex_R] [] = Err "1-1-13-9" /\
+  (* cross join: the product; identifiers are qualified too *)
+  bind (d_join JCross None [ex_L; ex_R]) (fun d => Ok (d_ids d, length (d_rows d))) =
+    Ok (["d1#Id_1"; "d1#Id_2"; "d2#Id_1"; "d2#Id_2"], 16).
+Proof. vm_compute. repeat split. Qed.
+
+Lemma has_dup_NoDup l : has_dup l = false -> NoDup l.
+Proof.
+  induction l as [|x t IH]; simpl; intros H; constructor; apply orb_false_iff in H; destruct H as [H1 H2]; auto.
+  intros Hin. apply mem_s_In in Hin. congruence.
+Qed.
+
+(* the hypotheses of the theorems are satisfiable: the example operands meet them *)
+Lemma example_hypotheses :
+  let hs := map o_hdr [ex_L; ex_R] in
+  wf_headers (jcols JInner None hs) hs /\ first_is_reference (o_hdr ex_L) [o_hdr ex_R] /\
+  Forall wf_operand [ex_L; ex_R] /\ same_ids ["Id_1"; "Id_2"] [ex_L; ex_R].
+Proof.
+  assert (forall h, In h (map o_hdr [ex_L; ex_R]) -> h = o_hdr ex_L \/ h = o_hdr ex_R) as Hh by (intros h [<-|[<-|[]]]; auto).
+  intros hs. split; [|split; [|split]].
+  - constructor.
+    + apply has_dup_NoDup. reflexivity.
+    + intros h Hin. destruct (Hh h Hin) as [-> | ->]; reflexivity.
+    + intros h Hin. destruct (Hh h Hin) as [-> | ->]; apply has_dup_NoDup; reflexivity.
+    + intros h n Hin Hn. destruct (Hh h Hin) as [-> | ->]; vm_compute in Hn; intuition (subst; reflexivity).
+    + intros n Hn. vm_compute in Hn. intuition (subst; reflexivity).
+    + apply has_dup_NoDup. reflexivity.
+  - split; [apply has_dup_NoDup; reflexivity|]. split.
+    + intros h [<-|[]]. apply incl_refl.
+    + intros h n Hin Hn _. destruct Hin as [<-|[<-|[]]]; exact Hn.
+  - apply Forall_forall.
+    intros o [<-|[<-|[]]]; (split; [apply has_dup_NoDup; reflexivity | split; [reflexivity|]]);
+      intros r H; simpl in H; repeat (destruct H as [<-|H]; [reflexivity|]); destruct H.
+  - unfold same_ids. apply Forall_forall.
+    intros o [<-|[<-|[]]]; (split; [reflexivity|]);
+      intros r H; simpl in H; repeat (destruct H as [<-|H]; [reflexivity|]); destruct H.
 Qed.
